@@ -245,7 +245,43 @@ def big_collection_stream(ctx, n):
             ctx.disagree(f"C07:big-collection:commute:{dtype.__name__}", desc, np.round(b[bad[0]], 6).tolist(), np.round(a[bad[0]], 6).tolist(), replay=[desc])
 
 
+def edited_stream(ctx, n):
+    """t * line, then t is edited in place through __setitem__ (the documented mutator of one's own object), then t * line again:
+    the second image belongs to the edited matrix, incidence with the images of the points is kept"""
+    import geometer as g
+    rng = ctx.rng
+    for k in range(n):
+        while True:
+            M = np.array([[float(rng.randint(-3, 3)) for _ in range(3)] for _ in range(3)])
+            M2 = M.copy()
+            M2[0, 2] = M2[0, 2] + rng.choice([4.0, -3.0])
+            if abs(np.linalg.det(M)) > 0.5 and abs(np.linalg.det(M2)) > 0.5:
+                break
+        a, b = g.Point(float(rng.randint(-4, 4)), float(rng.randint(-4, 4))), g.Point(float(rng.randint(-4, 4)), float(rng.randint(5, 9)))
+        desc = f"in-place edit of a transformation {M.tolist()} -> entry (0,2) = {M2[0, 2]}"
+        ctx.case(desc)
+        ctx.count("edited")
+        def run():
+            t = g.Transformation(M)
+            l = g.join(a, b)
+            first = t * l
+            inv1 = t.inverse()
+            t[0, 2] = M2[0, 2]
+            return first, t * l, t * a, t * b, t.inverse(), inv1
+        r = call_impl(run)
+        if r[0] != "ok":
+            ctx.disagree(f"C07:edited:error:{r[1]}", desc, "images", r[1:3], replay=[desc])
+            continue
+        first, second, ta, tb, inv2, inv1 = r[1]
+        fresh = g.Transformation(M2)
+        ok = proj_close_nn(np.asarray(second.array), np.asarray((fresh * g.join(a, b)).array), 1e-9) and bool(second.contains(ta)) and bool(second.contains(tb)) \
+            and proj_close_nn(np.asarray(inv2.array), np.linalg.inv(M2), 1e-9) and proj_close_nn(np.asarray(inv1.array), np.linalg.inv(M), 1e-9)
+        if not ok:
+            ctx.disagree("C07:edited:stale", desc, "the image under the edited matrix", np.asarray(second.array).tolist(), replay=[desc])
+
+
 def correspondence(ctx):
+    edited_stream(ctx, ctx.budget(20, 200))
     commute_stream(ctx, ctx.budget(30, 500))
     incidence_stream(ctx, ctx.budget(300, 5000))
     crossratio_stream(ctx, ctx.budget(150, 2500))
